@@ -1276,7 +1276,7 @@ class Processor:
                 compare_node = (all_anchors[str(stripped_attrs)]
                                 if stripped_attrs in all_anchors
                                 else None)
-                if compare_node:
+                if compare_node is not None:
                     for merge_tuple in data.merge:
                         merge_node = merge_tuple[1]
                         self.logger.debug((
